@@ -364,6 +364,9 @@ pub mod list_write;
 /// The rewrite decisions behind the opt-in options and the keyword tables of `utils.rs`.
 pub mod optin;
 
+/// The alignment machinery of `vertical.rs` on the field lists of a parsed snippet.
+pub mod vertical;
+
 /// Use trees, the comparators behind reordering and the grouping of reorderable items.
 ///
 /// Textual forms (shared by the checks of import reordering and import merging):
